@@ -1261,9 +1261,10 @@ def run(chk):
         "%d / min(edge, band width) samples; end transients are excluded" % KLEN,
         "non-equidistant series: the comparison includes the linear interpolation error of the sampled sinusoid (f dt <= 0.01), "
         "tolerance %g" % TOL_IRR,
-        "cut-offs below 0.008 Nyquist are outside the sampled range: the order-5 transfer-function (b, a) form used for low- and "
-        "high-pass is ill-conditioned there (rounding noise ~ 3e-18 / Wn^5 of the amplitude, measured) and very long records "
-        "are needed; the linearity tolerance follows that law with a factor 30",
+        "cut-offs below 0.008 Nyquist are sampled only by the always-first corpus cases (0.001 Nyquist, low- and high-pass): very long "
+        "records are needed there; before the F42 repair the order-5 transfer-function (b, a) form used for low- and high-pass was "
+        "ill-conditioned at such cut-offs (rounding noise ~ 3e-18 / Wn^5 of the amplitude, measured); the linearity tolerance still "
+        "follows that law with a factor 30",
     ]
     chk.partial += ["that scipy's butter + filtfilt / sosfiltfilt realise `responseOf` (squared Butterworth magnitude, zero "
                     "phase) in steady state is measured, not proved; end transients are not modelled"]
